@@ -89,6 +89,24 @@ def props_files(prop, tier="quick"):
     return out
 
 
+def lean_import_closure(roots):
+    """module names reachable through `import` lines inside the lake project (PyEcc.*, Driver)"""
+    seen, stack = set(), list(roots)
+    while stack:
+        m = stack.pop()
+        if m in seen:
+            continue
+        seen.add(m)
+        path = os.path.join(LEAN_DIR, *m.split(".")) + ".lean"
+        if not os.path.exists(path):
+            continue
+        for ln in open(path):
+            mm = re.match(r"\s*(?:public\s+)?import\s+(PyEcc\.[A-Za-z0-9_.]+|Driver)\s*$", ln)
+            if mm:
+                stack.append(mm.group(1))
+    return seen
+
+
 def instantiate_templates():
     """Props/*.lean.tpl -> Props/*_<NS>.lean (one copy per generated namespace); write-if-changed"""
     d = os.path.join(LEAN_DIR, "PyEcc", "Props")
@@ -189,8 +207,7 @@ def main():
             gen = json.loads(out.strip().split("\n")[-1])
         except Exception:  # noqa: BLE001
             infra.append("translator crashed: " + (err or out)[-500:])
-        for name, msg in gen.get("errors", []):
-            broken["tie"].append(f"Gen/{name}: {msg[:600]}")
+        gen_errors = gen.get("errors", [])
         effects_errs = []
         if hasattr(pm, "pre_build"):
             effects_errs = pm.pre_build() or []
@@ -205,6 +222,11 @@ def main():
             if os.path.exists(path) and m not in thms_by_mod:
                 mods.append(m)
                 thms_by_mod[m] = [t for t in theorems_of(path) if t[0].startswith(prefix)]
+        # a translator failure breaks the tie of THIS property only if the failed Gen file is one its theorems or the driver import
+        closure = lean_import_closure([f"PyEcc.{m}" for m in mods] + ["Driver"])
+        for name, msg in gen_errors:
+            if f"PyEcc.Gen.{name}" in closure:
+                broken["tie"].append(f"Gen/{name}: {msg[:600]}")
         audit_path = write_audit(prop, thms_by_mod)
         targets = [f"PyEcc.{m}" for m in mods] + ["driver"]
         rc, out, err = sh(["lake", "build"] + targets, cwd=LEAN_DIR, timeout=7200)
